@@ -32,7 +32,7 @@ type lfCase struct {
 	// and again (renamed) in every copy world: things the load forms under
 	// test refer to but that are not themselves under test.
 	support string
-	// setup is source evaluated once ('@' = unique prefix).
+	// setup is source evaluated once ('$' = unique prefix).
 	setup string
 	// obj is an expression yielding the object (data flow).
 	obj string
@@ -43,9 +43,37 @@ type lfCase struct {
 	// flavor for the method's defining list.
 	defs []string
 	// probes are expressions evaluated in the original and the reloaded world
-	// ('@' = prefix; for lambdas the variable f holds the function).
+	// ('$' = prefix; for lambdas the variable f holds the function).
 	probes []string
 	tier   string // "" = both, "thorough" = thorough only
+	// parts: labels of the single-feature cases this combination is made of.
+	// A failure the combination shares with one of its parts is attributed to
+	// that part (same signature), so that only a genuine interaction gets a
+	// signature of its own.
+	parts []string
+}
+
+var partWhats = map[string]map[string]bool{}
+
+func whatsOf(label string) map[string]bool {
+	if m, has := partWhats[label]; has {
+		return m
+	}
+	m := map[string]bool{}
+	partWhats[label] = m
+	if c := lfIndex[label]; c != nil {
+		var r engine.Result
+		var fails []*lfFail
+		if 0 < len(c.defs) {
+			fails, _, _ = runWorld(c, &r)
+		} else {
+			fails, _, _ = runData(c, &r)
+		}
+		for _, f := range fails {
+			m[f.what] = true
+		}
+	}
+	return m
 }
 
 var seq int
@@ -164,6 +192,7 @@ func safeLoadForm(lf slip.LoadFormer) (form slip.Object) {
 // (by harness convention every documentation string starts with "Doc").
 // The pretty printer deliberately re-flows documentation strings.
 func normDocs(s string) string {
+	s = sortOption(s, "(:inittable-instance-variables ")
 	var b strings.Builder
 	i := 0
 	for i < len(s) {
@@ -276,7 +305,14 @@ func execLF(c *lfCase, res *engine.Result) {
 			}
 			margins = "some:" + marginBand(min)
 		}
-		res.Fail(fmt.Sprintf("lf kind=%s feat=%s fail=%s margins=%s", c.kind, c.feat, what, margins),
+		feat := c.feat
+		for _, pl := range c.parts {
+			if whatsOf(pl)[what] {
+				feat = lfIndex[pl].feat
+				break
+			}
+		}
+		res.Fail(fmt.Sprintf("lf kind=%s feat=%s fail=%s margins=%s", c.kind, feat, what, margins),
 			fmt.Sprintf("case %s: %s (failing at %d of %d distinct layouts)", c.label, fs[0].detail, len(fs), ntexts))
 	}
 }
@@ -291,7 +327,7 @@ func errWhat(prefix string, err *lisp.Err) string {
 // runData: object -> LoadForm -> pp at every margin -> read -> eval -> Equal.
 func runData(c *lfCase, res *engine.Result) (fails []*lfFail, ntexts int, outcome string) {
 	prefix := fresh()
-	ren := func(s string) string { return strings.ReplaceAll(s, "@", prefix) }
+	ren := func(s string) string { return strings.ReplaceAll(s, "$", prefix) }
 	scope := slip.NewScope()
 	if c.support != "" {
 		if _, err := lisp.EvalIn(scope, ren(c.support)); err != nil {
@@ -326,6 +362,8 @@ func runData(c *lfCase, res *engine.Result) (fails []*lfFail, ntexts int, outcom
 			res.Fail("harness:lf-obj-not-funky", c.label+": "+lisp.Show(obj))
 			return
 		}
+	} else if strings.HasPrefix(c.obj, "go-symbol:") {
+		obj = slip.Symbol(c.obj[len("go-symbol:"):])
 	} else {
 		var err *lisp.Err
 		if obj, err = lisp.EvalIn(scope, ren(c.obj)); err != nil {
@@ -417,7 +455,9 @@ func runData(c *lfCase, res *engine.Result) (fails []*lfFail, ntexts int, outcom
 			o2 = code[0]
 			if list, ok := o2.(slip.List); ok {
 				if c.funky {
-					o2 = slip.ListToFunc(scope, list, 0)
+					// compiled exactly like the original was
+					code.Compile()
+					o2 = code[0]
 				} else {
 					o2 = list.Eval(scope, 0)
 				}
@@ -476,6 +516,14 @@ func runData(c *lfCase, res *engine.Result) (fails []*lfFail, ntexts int, outcom
 			fail("equal-panic", "Equal => "+err.String())
 			continue
 		}
+		if !eq && c.funky {
+			// a literal argument (a vector) is replaced by its constructor call:
+			// accepted when the load form of the reloaded call is the same
+			if f2, ok := o2.(slip.LoadFormer); ok && show(safeLoadForm(f2)) == show(form) {
+				eq = true
+				res.Hit("lf-call-equal-by-loadform")
+			}
+		}
 		if !eq {
 			fail("not-equal", "reloaded object "+show(o2)+" is not Equal to the original")
 			continue
@@ -529,7 +577,7 @@ type defMethodLister interface {
 // both and must agree (after renaming back).
 func runWorld(c *lfCase, res *engine.Result) (fails []*lfFail, ntexts int, outcome string) {
 	prefix := fresh()
-	ren := func(s, p string) string { return strings.ReplaceAll(s, "@", p) }
+	ren := func(s, p string) string { return strings.ReplaceAll(s, "$", p) }
 	scope := slip.NewScope()
 	if c.support != "" {
 		if _, err := lisp.EvalIn(scope, ren(c.support, prefix)); err != nil {
@@ -593,7 +641,7 @@ func runWorld(c *lfCase, res *engine.Result) (fails []*lfFail, ntexts int, outco
 		orig = append(orig, normDocs(evalObserve(scope, ren(p, prefix))))
 	}
 	res.Hit("lf-behaviour-probes")
-	outcome = fmt.Sprintf("%s layouts=%d", strings.ReplaceAll(strings.Join(orig, " ; "), prefix, "@"), ntexts)
+	outcome = fmt.Sprintf("%s layouts=%d", strings.ReplaceAll(strings.Join(orig, " ; "), prefix, "$"), ntexts)
 	for _, t := range texts {
 		text := t.text
 		if textMutator != nil {
@@ -603,7 +651,7 @@ func runWorld(c *lfCase, res *engine.Result) (fails []*lfFail, ntexts int, outco
 		copyPrefix := fresh()
 		fail := func(what, detail string) {
 			fails = append(fails, &lfFail{what: what, margin: m,
-				detail: fmt.Sprintf("margin %d: %s; text %q", m, detail, strings.ReplaceAll(text, prefix, "@"))})
+				detail: fmt.Sprintf("margin %d: %s; text %q", m, detail, strings.ReplaceAll(text, prefix, "$"))})
 		}
 		text2 := strings.ReplaceAll(text, prefix, copyPrefix)
 		s2 := slip.NewScope()
@@ -632,6 +680,8 @@ func runWorld(c *lfCase, res *engine.Result) (fails []*lfFail, ntexts int, outco
 			continue
 		}
 		failed := false
+		degraded := ""
+	evalForms:
 		for i, form := range code {
 			func() {
 				defer func() {
@@ -644,6 +694,26 @@ func runWorld(c *lfCase, res *engine.Result) (fails []*lfFail, ntexts int, outco
 			}()
 			if err != nil {
 				fail(errWhat("eval-error", err), fmt.Sprintf("evaluating form %d of the text => %s", i+1, err.String()))
+				// S9: (defpackage name ...) evaluates its name; the load form
+				// gives a bare symbol. Step around it (quote every bare name of
+				// the case) so that the rest of the form is still compared.
+				if c.kind == "package" && degraded == "" && err.Class == "unbound-variable" {
+					degraded = " degraded=names-quoted"
+					text3 := strings.ReplaceAll(text2, " "+copyPrefix, " :"+copyPrefix)
+					err = nil
+					func() {
+						defer func() {
+							if rec := recover(); rec != nil {
+								err = lisp.ErrFromRecovered(rec)
+							}
+						}()
+						code = slip.ReadString(text3, s2)
+					}()
+					if err == nil {
+						res.Hit("lf-degraded-reload")
+						goto evalForms
+					}
+				}
 				failed = true
 				break
 			}
@@ -659,11 +729,29 @@ func runWorld(c *lfCase, res *engine.Result) (fails []*lfFail, ntexts int, outco
 				if strings.HasPrefix(p, "(make-load-form") {
 					what = "loadform-differs"
 				}
+				what += degraded
 				fail(what, fmt.Sprintf("%s => %s in the reloaded world, %s in the original", p,
-					strings.ReplaceAll(got, prefix, "@"), strings.ReplaceAll(orig[i], prefix, "@")))
+					strings.ReplaceAll(got, prefix, "$"), strings.ReplaceAll(orig[i], prefix, "$")))
 				break
 			}
 		}
 	}
 	return
+}
+
+// sortOption sorts the symbols of a flat option list: Flavor.LoadForm emits
+// the inittable variables in Go map order, which does not change the flavor.
+func sortOption(s, head string) string {
+	i := strings.Index(s, head)
+	if i < 0 {
+		return s
+	}
+	j := strings.IndexByte(s[i:], ')')
+	if j < 0 {
+		return s
+	}
+	j += i
+	fields := strings.Fields(s[i+len(head) : j])
+	sort.Strings(fields)
+	return s[:i] + head + strings.Join(fields, " ") + sortOption(s[j:], head)
 }
